@@ -356,67 +356,13 @@ end so31
 section pgl
 variable {K : Type*} [Field K] [LinearOrder K] [IsStrictOrderedRing K] {r : K → K}
 
-theorem two_ne_zero' : (2 : K) ≠ 0 := two_ne_zero
-
-/-- the extraction of the repaired `o_to_pgl` recovers `±[[a,b],[c,d]]` from the Sym² matrix
-as soon as its middle row is non-zero (always the case when `ad - bc ≠ 0`) -/
-theorem extract_spec (hr : IsSqrt r) (M : Matrix (Fin 3) (Fin 3) K) (a b c d : K)
-    (h22 : M 2 2 = a ^ 2) (h20 : M 2 0 = b ^ 2) (h02 : M 0 2 = c ^ 2) (h00 : M 0 0 = d ^ 2)
-    (h21 : M 2 1 = a * b) (h01 : M 0 1 = c * d) (h10 : M 1 0 = 2 * b * d)
-    (h11 : M 1 1 = a * d + b * c) (h12 : M 1 2 = 2 * a * c)
-    (hN : 0 < (2 * b * d) ^ 2 + (a * d + b * c) ^ 2 + (2 * a * c) ^ 2) :
-    extract r M = !![a, b; c, d] ∨ extract r M = !![-a, -b; -c, -d] := by
-  unfold extract
-  simp only [h22, h20, h02, h00, h21, h01, h10, h11, h12]
-  rcases pair_sign hr a b with ⟨ha, hb⟩ | ⟨ha, hb⟩ <;>
-  rcases pair_sign hr c d with ⟨hc, hd⟩ | ⟨hc, hd⟩ <;>
-  rw [ha, hb, hc, hd]
-  · left
-    rw [if_neg]
-    nlinarith [hN]
-  · left
-    rw [if_pos]
-    · simp
-    · nlinarith [hN]
-  · right
-    rw [if_pos]
-    nlinarith [hN]
-  · right
-    rw [if_neg]
-    nlinarith [hN]
-
-theorem middle_row_pos (a b c d : K) (h : a * d - b * c ≠ 0) :
-    0 < (2 * b * d) ^ 2 + (a * d + b * c) ^ 2 + (2 * a * c) ^ 2 := by
-  have h0 : 0 ≤ (2 * b * d) ^ 2 + (a * d + b * c) ^ 2 + (2 * a * c) ^ 2 := by positivity
-  rcases h0.lt_or_eq with h1 | h1
-  · exact h1
-  · exfalso
-    have e1 : (2 * b * d) ^ 2 = 0 := by nlinarith [sq_nonneg (2 * b * d), sq_nonneg (a * d + b * c), sq_nonneg (2 * a * c)]
-    have e2 : (a * d + b * c) ^ 2 = 0 := by nlinarith [sq_nonneg (2 * b * d), sq_nonneg (a * d + b * c), sq_nonneg (2 * a * c)]
-    have e3 : (2 * a * c) ^ 2 = 0 := by nlinarith [sq_nonneg (2 * b * d), sq_nonneg (a * d + b * c), sq_nonneg (2 * a * c)]
-    have f1 : b * d = 0 := by
-      have := pow_eq_zero_iff (n := 2) (by norm_num) |>.1 e1
-      have h2 : (2 : K) ≠ 0 := two_ne_zero
-      have : 2 * (b * d) = 0 := by rw [← this]; ring
-      exact (mul_eq_zero.1 this).resolve_left h2
-    have f2 : a * d + b * c = 0 := pow_eq_zero_iff (n := 2) (by norm_num) |>.1 e2
-    have f3 : a * c = 0 := by
-      have := pow_eq_zero_iff (n := 2) (by norm_num) |>.1 e3
-      have h2 : (2 : K) ≠ 0 := two_ne_zero
-      have : 2 * (a * c) = 0 := by rw [← this]; ring
-      exact (mul_eq_zero.1 this).resolve_left h2
-    have g : (a * d - b * c) ^ 2 = 0 := by
-      have : (a * d - b * c) ^ 2 = (a * d + b * c) ^ 2 - 4 * (a * c) * (b * d) := by ring
-      rw [this, f2, f1]; ring
-    exact h (pow_eq_zero_iff (n := 2) (by norm_num) |>.1 g)
-
 /-- **the last clause of C17 on the repaired tree**: `o_to_pgl (sl2_to_so21 A) = ±A` for
 every real 2×2 matrix of non-zero determinant — in particular every `A ∈ SL(2,ℝ)`,
 including those with vanishing entries -/
 theorem oToPgl_recovers (hr : IsSqrt r) (A : Matrix (Fin 2) (Fin 2) K) (h : A.det ≠ 0) :
     oToPgl r (sl2ToSo21 A) = A ∨ oToPgl r (sl2ToSo21 A) = -A := by
   unfold oToPgl
-  rw [oToPglAd_sl2ToSo21 two_ne_zero, sl2Irrep_three]
+  rw [oToPglAd_sl2ToSo21 two_ne_zero, normSign_irrep, sl2Irrep_three]
   have hdet : A 0 0 * A 1 1 - A 0 1 * A 1 0 ≠ 0 := by rwa [Matrix.det_fin_two] at h
   have := extract_spec hr
     (!![A 1 1 ^ 2, A 1 0 * A 1 1, A 1 0 ^ 2;
@@ -428,7 +374,40 @@ theorem oToPgl_recovers (hr : IsSqrt r) (A : Matrix (Fin 2) (Fin 2) K) (h : A.de
   · left; rw [e]; ext i j; fin_cases i <;> fin_cases j <;> simp
   · right; rw [e]; ext i j; fin_cases i <;> fin_cases j <;> simp
 
-/-- … hence a homomorphism up to sign on the image of `SL^±(2)` -/
+/-- `O(2,1) → PGL(2)` kills `-1`: the same answer for `-sl2_to_so21 A` -/
+theorem oToPgl_neg (A : Matrix (Fin 2) (Fin 2) K) (h : A.det ≠ 0) :
+    oToPgl r (-sl2ToSo21 A) = oToPgl r (sl2ToSo21 A) := by
+  unfold oToPgl
+  rw [oToPglAd_neg, oToPglAd_sl2ToSo21 two_ne_zero, normSign_irrep, normSign_neg_irrep A h]
+
+/-- … hence, on all matrices `±sl2_to_so21 A` (`det A ≠ 0`; for real `A` with `det A = ±1`
+these are all of `O(2,1)`), `±A` is recovered -/
+theorem oToPgl_recovers_pm (hr : IsSqrt r) (A : Matrix (Fin 2) (Fin 2) K) (h : A.det ≠ 0) (ε : K)
+    (hε : ε = 1 ∨ ε = -1) :
+    oToPgl r (ε • sl2ToSo21 A) = A ∨ oToPgl r (ε • sl2ToSo21 A) = -A := by
+  rcases hε with rfl | rfl
+  · rw [one_smul]; exact oToPgl_recovers hr A h
+  · rw [neg_one_smul, oToPgl_neg A h]; exact oToPgl_recovers hr A h
+
+/-- … and a homomorphism up to sign on that group of matrices -/
+theorem oToPgl_hom_up_to_sign_pm (hr : IsSqrt r) (A B : Matrix (Fin 2) (Fin 2) K)
+    (hA : A.det ≠ 0) (hB : B.det ≠ 0) (ε δ : K) (hε : ε = 1 ∨ ε = -1) (hδ : δ = 1 ∨ δ = -1) :
+    oToPgl r ((ε • sl2ToSo21 A) * (δ • sl2ToSo21 B))
+        = oToPgl r (ε • sl2ToSo21 A) * oToPgl r (δ • sl2ToSo21 B) ∨
+    oToPgl r ((ε • sl2ToSo21 A) * (δ • sl2ToSo21 B))
+        = -(oToPgl r (ε • sl2ToSo21 A) * oToPgl r (δ • sl2ToSo21 B)) := by
+  have hAB : (A * B).det ≠ 0 := by rw [Matrix.det_mul]; exact mul_ne_zero hA hB
+  have hprod : (ε • sl2ToSo21 A) * (δ • sl2ToSo21 B) = (ε * δ) • sl2ToSo21 (A * B) := by
+    rw [Matrix.smul_mul, Matrix.mul_smul, smul_smul, sl2ToSo21_mul two_ne_zero]
+  have hεδ : ε * δ = 1 ∨ ε * δ = -1 := by
+    rcases hε with rfl | rfl <;> rcases hδ with rfl | rfl <;> simp
+  rw [hprod]
+  rcases oToPgl_recovers_pm hr (A * B) hAB _ hεδ with e | e <;>
+  rcases oToPgl_recovers_pm hr A hA ε hε with ea | ea <;>
+  rcases oToPgl_recovers_pm hr B hB δ hδ with eb | eb <;>
+  rw [e, ea, eb] <;> simp
+
+/-- … in particular a homomorphism up to sign on the image of `SL^±(2)` -/
 theorem oToPgl_hom_up_to_sign (hr : IsSqrt r) (A B : Matrix (Fin 2) (Fin 2) K)
     (hA : A.det ≠ 0) (hB : B.det ≠ 0) :
     oToPgl r (sl2ToSo21 A * sl2ToSo21 B) = oToPgl r (sl2ToSo21 A) * oToPgl r (sl2ToSo21 B) ∨
